@@ -1,58 +1,77 @@
 #!/usr/bin/env bash
-# tools/seed_eval.sh <cXX> <a|b> : confirms a seeded regression in its scratch worktree (/tmp/seed/<id>/repo), then runs the
-# property's quick check against it in /repo and records everything under /verif/seeded/<id>-<x>/
+# tools/seed_eval.sh <cXX> <a|b> [--check-only]
+# Confirms an independently seeded regression and runs the property's quick check against it; records everything under
+# /verif/seeded/<id>-<x>/ (patch.diff, demo.rs, notes.txt come from the seeding agent's scratch dir /tmp/seed/<id>/<x>/ the
+# first time; afterwards the copies under /verif/seeded are authoritative).
+#   1. scratch worktree of /repo HEAD (/tmp/seedws/repo): the demonstration passes without the patch, fails with it;
+#   2. the pinned suite passes with the patch (nextest, same selection as the baseline);
+#   3. ./check <Cxx> quick against a private copy of /repo HEAD + patch (tools/evalws.sh; /repo itself is never modified).
+# --check-only repeats step 3 only (after a check was strengthened) and keeps the earlier verdicts in meta.json.
 set -u
-ID="$1"; X="$2"; PID=$(echo "$ID" | tr c C)
-S=/tmp/seed/$ID; W=$S/repo; OUT=/verif/seeded/$ID-$X
+ID="$1"; X="$2"; ONLY="${3:-}"; PID=$(echo "$ID" | tr c C)
+S=/tmp/seed/$ID/$X; OUT=/verif/seeded/$ID-$X
 mkdir -p "$OUT"
-cp "$S/$X/patch.diff" "$OUT/patch.diff"; cp "$S/$X/demo.rs" "$OUT/demo.rs"; cp "$S/$X/notes.txt" "$OUT/notes.txt" 2>/dev/null
-T=seeded_${ID}_$X
-cd "$W" || exit 2
-git checkout -q -- . ; cp "$S/$X/demo.rs" "tests/$T.rs"
-export CARGO_NET_OFFLINE=true
-export CARGO_TARGET_DIR=/tmp/seed/target
-export CARGO_INCREMENTAL=0
-timeout 3000 cargo test --offline --test "$T" > "$OUT/demo-without.log" 2>&1; r0=$?
-git apply "$S/$X/patch.diff" || { echo "patch does not apply"; exit 2; }
-timeout 3000 cargo test --offline --test "$T" > "$OUT/demo-with.log" 2>&1; r1=$?
-timeout 3000 cargo nextest run --workspace --no-fail-fast --offline --test-threads 8 -E 'not binary(/seeded/)' > "$OUT/suite-with.log" 2>&1; r2=$?
-suite=$(grep -E "Summary" "$OUT/suite-with.log" | tail -1 | sed 's/\x1b\[[0-9;]*m//g')
-git checkout -q -- .
-# the framework's check against the change: run in a private copy (/tmp/evalws: worktrees of /verif HEAD and /repo HEAD,
-# harness wired to that repo copy) so that /repo itself is never modified
-EVW=/tmp/evalws
-git -C $EVW/verif checkout -q -- . ; git -C $EVW/verif checkout -q --detach "$(git -C /verif rev-parse HEAD)"
-git -C $EVW/repo checkout -q -- . ; git -C $EVW/repo checkout -q --detach "$(git -C /repo rev-parse HEAD)"
-sed -i "s|/repo|$EVW/repo|g" $EVW/verif/harness/Cargo.toml; sed -i "s|cp /repo/Cargo.lock|cp $EVW/repo/Cargo.lock|" $EVW/verif/check
-git -C $EVW/repo apply "$S/$X/patch.diff" || { echo "patch does not apply to the repo HEAD"; exit 2; }
+if [ ! -f "$OUT/patch.diff" ]; then
+  cp "$S/patch.diff" "$OUT/patch.diff" || exit 2; cp "$S/demo.rs" "$OUT/demo.rs" || exit 2; cp "$S/notes.txt" "$OUT/notes.txt" 2>/dev/null
+fi
+export CARGO_NET_OFFLINE=true CARGO_INCREMENTAL=0
+r0=skip; r1=skip; r2=skip; suite=""
+if [ "$ONLY" != "--check-only" ]; then
+  W=/tmp/seedws/repo; mkdir -p /tmp/seedws
+  git -C /repo worktree prune
+  [ -e $W/.git ] || git -C /repo worktree add --detach $W HEAD >/dev/null 2>&1 || exit 2
+  git -C $W checkout -q -- . ; git -C $W clean -fdq; git -C $W checkout -q --detach "$(git -C /repo rev-parse HEAD)"
+  T=seeded_${ID}_$X
+  cd $W || exit 2
+  cp "$OUT/demo.rs" "tests/$T.rs"
+  export CARGO_TARGET_DIR=/tmp/seedws/target
+  timeout 3000 cargo test --offline --test "$T" > "$OUT/demo-without.log" 2>&1; r0=$?
+  git apply "$OUT/patch.diff" || { echo "patch does not apply to /repo HEAD"; exit 2; }
+  timeout 3000 cargo test --offline --test "$T" > "$OUT/demo-with.log" 2>&1; r1=$?
+  timeout 3000 cargo nextest run --workspace --no-fail-fast --offline --test-threads 8 -E 'not binary(/seeded/)' > "$OUT/suite-with.log" 2>&1; r2=$?
+  suite=$(grep -E "Summary" "$OUT/suite-with.log" | tail -1 | sed 's/\x1b\[[0-9;]*m//g')
+  # keep the log small: summary + failures only
+  grep -E "Summary|FAIL|SIGABRT|error\[" "$OUT/suite-with.log" | sed 's/\x1b\[[0-9;]*m//g' | head -60 > "$OUT/suite-with.log.tmp"; mv "$OUT/suite-with.log.tmp" "$OUT/suite-with.log"
+  for f in demo-without demo-with; do tail -n 40 "$OUT/$f.log" > "$OUT/$f.log.tmp"; mv "$OUT/$f.log.tmp" "$OUT/$f.log"; done
+  git checkout -q -- . ; rm -f "tests/$T.rs"
+  unset CARGO_TARGET_DIR
+fi
 s=$(date +%s)
-( cd $EVW/verif && VERIF_ROOT=$EVW/verif timeout 2400 ./check "$PID" quick ) > "$OUT/check-quick.log" 2>&1; rc=$?
+( cd /verif && timeout 2400 tools/evalws.sh "$OUT/patch.diff" "$PID" quick ) > "$OUT/check-quick.log" 2>&1; rc=$?
 e=$(( $(date +%s) - s ))
-git -C $EVW/repo checkout -q -- .
 sig=$(grep -m1 "signature=" "$OUT/check-quick.log" | sed 's/.*signature=//' | cut -c1-120)
-python3 - "$OUT" "$PID" "$ID" "$X" "$r0" "$r1" "$r2" "$suite" "$rc" "$e" "$sig" <<'PY'
-import json, sys
-out, pid, i, x, r0, r1, r2, suite, rc, e, sig = sys.argv[1:]
-notes = open(out + '/notes.txt').read() if __import__('os').path.exists(out + '/notes.txt') else ''
-meta = {
- "property": pid, "id": f"{i}-{x}",
- "needs_to_manifest": notes.strip()[:1500],
- "confirmed": {
-   "demo_without_change": "pass" if r0 == '0' else f"FAIL(rc={r0})",
-   "demo_with_change": "fail" if r1 != '0' else "PASS(unexpected)",
-   "pinned_suite_with_change": suite.strip() or f"rc={r2}",
-   "commands": [f"cargo test --offline --test seeded_{i}_{x} (without / with the patch, in a scratch worktree)",
-                "cargo nextest run --workspace --no-fail-fast --offline --test-threads 8 -E 'not binary(/seeded/)' (with the patch)",
-                f"patch applied to a worktree of /repo HEAD and ./check {pid} quick run with the harness wired to that worktree (same as: git -C /repo apply patch.diff; ./check {pid} quick; git -C /repo checkout -- .)"],
- },
- "framework": {"check": f"./check {pid} quick", "exit_code": int(rc), "detected": rc == '1', "seconds": int(e), "first_signature": sig},
-}
-# keep the verdicts of earlier versions of the check (a change missed first and caught after strengthening stays visible)
+sed -i 's|/tmp/evalws/verif/|/verif/|g' "$OUT/check-quick.log"
+python3 - "$OUT" "$PID" "$ID" "$X" "$r0" "$r1" "$r2" "$suite" "$rc" "$e" "$sig" "$(git -C /repo rev-parse --short HEAD)" "$(git -C /verif rev-parse --short HEAD)" <<'PY'
+import json, sys, os
+out, pid, i, x, r0, r1, r2, suite, rc, e, sig, repo_head, verif_head = sys.argv[1:]
+notes = open(out + '/notes.txt').read() if os.path.exists(out + '/notes.txt') else ''
 try:
     old = json.load(open(out + '/meta.json'))
-    meta["earlier_runs"] = old.get("earlier_runs", []) + [old["framework"]]
 except Exception:
-    pass
+    old = None
+fw = {"check": f"./check {pid} quick", "exit_code": int(rc), "detected": rc == '1', "seconds": int(e), "first_signature": sig, "verif_commit": verif_head, "repo_commit": repo_head}
+if r0 == 'skip' and old:
+    meta = old
+    meta["earlier_runs"] = old.get("earlier_runs", []) + [old["framework"]]
+    meta["framework"] = fw
+else:
+    meta = {
+     "property": pid, "id": f"{i}-{x}",
+     "needs_to_manifest": notes.strip()[:1500],
+     "confirmed": {
+       "demo_without_change": "pass" if r0 == '0' else f"FAIL(rc={r0})",
+       "demo_with_change": "fail" if r1 != '0' else "PASS(unexpected)",
+       "pinned_suite_with_change": suite.strip() or f"rc={r2}",
+       "repo_commit": repo_head,
+       "commands": [f"cargo test --offline --test seeded_{i}_{x} (without / with the patch, in a scratch worktree of /repo HEAD)",
+                    "cargo nextest run --workspace --no-fail-fast --offline --test-threads 8 -E 'not binary(/seeded/)' (with the patch)",
+                    f"tools/evalws.sh seeded/{i}-{x}/patch.diff {pid} quick  (= git -C /repo apply patch.diff; ./check {pid} quick; git -C /repo checkout -- . , run on a private copy of /repo)"],
+     },
+     "framework": fw,
+    }
+    if old:
+        meta["earlier_runs"] = old.get("earlier_runs", []) + [old["framework"]]
 json.dump(meta, open(out + '/meta.json', 'w'), indent=1)
-print(f"{i}-{x}: demo without={meta['confirmed']['demo_without_change']} with={meta['confirmed']['demo_with_change']} suite=[{suite.strip()}] check rc={rc} ({e}s) sig={sig}")
+c = meta['confirmed']
+print(f"{i}-{x}: demo without={c['demo_without_change']} with={c['demo_with_change']} suite=[{c['pinned_suite_with_change']}] check rc={rc} ({e}s) sig={sig}")
 PY
